@@ -131,8 +131,18 @@ func (d *Decorator) DecorateNode(n ast.Node) (dst.Node, error) {
 	if f, ok := n.(*ast.File); ok {
 		fd.file = f
 	}
-	fd.fragment(n)
-	fd.link()
+	if pkg, ok := n.(*ast.Package); ok {
+		// The comments and line breaks of a file belong to the nodes of that file, so the files
+		// of a package are fragmented and linked one at a time.
+		for _, file := range pkg.Files {
+			fd.fragments = nil
+			fd.fragment(file)
+			fd.link()
+		}
+	} else {
+		fd.fragment(n)
+		fd.link()
+	}
 
 	out, err := fd.decorateNode(nil, "", "", "", n)
 	if err != nil {
